@@ -718,6 +718,8 @@ class LoadMixin(AbstractLoaderGenerator, BaseLoadHook):
 
         # type_ann = tp.origin
         type_ann = eval_forward_ref_if_needed(tp.origin, extras['cls'])
+        if type_ann is None:  # `None` is shorthand for `NoneType`
+            type_ann = NoneType
 
         origin = get_origin_v2(type_ann)
         name = getattr(origin, '__name__', origin)
